@@ -21,7 +21,7 @@ from .. import common
 
 def gen_vals(rng):
     n = rng.choice([1, 2, 3, 5, 12, 40])
-    kind = rng.choice(['heights', 'heights', 'dts', 'constant', 'integers', 'tiny_span'])
+    kind = rng.choice(['heights', 'heights', 'dts', 'constant', 'integers', 'tiny_span', 'near_edges'])
     if kind == 'heights':
         v = [rng.uniform(0, 30000) for _ in range(n)]
     elif kind == 'dts':
@@ -30,6 +30,9 @@ def gen_vals(rng):
         v = [float(rng.choice([0, 1500, 99999]))] * n
     elif kind == 'integers':
         v = [float(rng.randint(0, 20000)) for _ in range(n)]
+    elif kind == 'near_edges':
+        v = [rng.choice([1000, 3000, 8000, 14000, 20000, 2500.5, 1640.42, 9842.52, 0.5]) + rng.choice([0.0, 0.0, -0.25, 0.25, 1.0, -1.0, 1e-9])
+             for _ in range(n)]
     else:
         base = rng.uniform(100, 10000)
         v = [base + rng.uniform(0, 1e-3) for _ in range(n)]
@@ -65,10 +68,16 @@ def gen_spec(rng, vals):
         return 'minmax-scale', {'min_range': mr}, f'minmax:{common.frac(mr)}'
     if mode == 'step':
         n = rng.choice([0, 1, 2, 3, 4])
-        steps = sorted(rng.choice([1000, 3000, 8000, 8000, 14000, 20000]) for _ in range(n))
-        scales = [rng.choice([100, 250, 500, 1000]) for _ in range(n + 1)]
+        # step edges and scales as people write them: integers, non-integer values (metric limits converted to ft),
+        # floats, any mixture (the types of the list entries must not matter, only their values)
+        pool = [1000, 3000, 8000, 8000, 14000, 20000, 2500.5, 1640.42, 9842.52, 3000.0, 0.5]
+        steps = sorted(rng.choice(pool) for _ in range(n))
+        scales = [rng.choice([100, 250, 500, 1000, 100.0, 0.5, 2.5, 333.3]) for _ in range(n + 1)]
+        if rng.random() < 0.3:
+            scales = [int(x) if float(x).is_integer() else x for x in scales]
+            steps = [int(x) if float(x).is_integer() else x for x in steps]
         return 'step-scale', {'steps': steps, 'scales': scales}, \
-            'step:{}:{}'.format(','.join(map(str, steps)), ','.join(map(str, scales)))
+            'step:{}:{}'.format(','.join(common.frac(x) for x in steps), ','.join(common.frac(x) for x in scales))
     if mode == 'step_bad':
         if rng.random() < 0.5:
             steps, scales = [1000, 500], [1, 2, 3]          # not ordered
